@@ -1720,9 +1720,12 @@ class EnumNode(AstNode):
             if member.value is not None:
                 try:
                     text = todict.print_node(member.value)
-                    if len(text) > 1 and text[0] == "0" and text.isdigit():
-                        # A C octal literal, 010 is 8.
-                        cvalue = int(text, 8)
+                    digits = text[1:] if text[:1] in ("-", "+") else text
+                    if len(digits) > 1 and digits[0] == "0" and digits.isdigit():
+                        # A C octal literal, 010 is 8 (and -010 is -8).
+                        cvalue = int(digits, 8)
+                        if text[0] == "-":
+                            cvalue = -cvalue
                     else:
                         cvalue = int(text)
                     fvalue = cvalue
